@@ -191,6 +191,10 @@ def arg_spec(a, sp, level=0):
     return a
 
 
+def _has_escaped_key(v):
+    return type(v) is dict and any(type(k) is str and "\\path" in k for k in v)
+
+
 def looks_like_path_spec(d):
     if len(d) != 1:
         return False
@@ -208,6 +212,10 @@ def escape_literal_mapping(d):
         return d
     (k, v), = d.items()
     if not k.startswith("path"):
+        raise Inexpressible(k)
+    if _has_escaped_key(v) or (type(v) is list and any(_has_escaped_key(i) for i in v)):
+        # valida un-escapes the keys of an escaped mapping but then does not look inside it:
+        # a path-like literal nested in a path-like literal has no spelling
         raise Inexpressible(k)
     return {"\\" + k: v}
 
@@ -278,6 +286,25 @@ def cond_spec(term, sp=None, flatten=True):
     if c == "leaf":
         return leaf_spec(term, sp)
     return {c: [cond_spec(term["a"], sp), cond_spec(term["b"], sp)]}
+
+
+def nary_spec(term, rng=None, sp=None):
+    """binary tree -> spec with same-operator left chains flattened into one list
+    (`{'and': [x, y, z]}` is the left fold and(and(x, y), z))"""
+    sp = sp or Spelling()
+    c = term["c"]
+    if c == "null":
+        return {}
+    if c == "leaf":
+        return leaf_spec(term, sp)
+    items = [term["b"]]
+    t = term["a"]
+    while t["c"] == c and (rng is None or rng.random() < 0.7):
+        items.append(t["b"])
+        t = t["a"]
+    items.append(t)
+    items.reverse()
+    return {c: [nary_spec(i, rng, sp) for i in items]}
 
 
 def _comp_spec(c, kind, sp):
